@@ -396,6 +396,8 @@ class FnTrans:
             return head + v, head + (("(%s) &&\n%s" % (p, pad)) if p else "") + pp
         if k == "ForStmt":
             return self.for_stmt(s, rest, env, cont, ind)
+        if k == "SwitchStmt":
+            return self.switch_stmt(s, rest, env, cont, ind)
         if k == "UnaryOperator" and s.get("opcode") in ("++", "--"):
             tgt = s["inner"][0]
             while tgt.get("kind") in ("ParenExpr",): tgt = tgt["inner"][0]
@@ -489,6 +491,56 @@ class FnTrans:
             return val, pre
         # expression statement without effect we understand
         raise Unsupported("%s: statement kind %s" % (self.name, k))
+
+    def switch_stmt(self, s, rest, env, cont, ind):
+        """switch over an enum whose arms all return (stacked case labels allowed, no fall-through
+        between arms); becomes a Lean `match`. A `default:` arm is dropped when the cases are exhaustive."""
+        pad = "  " * ind
+        parts = [c for c in s["inner"] if isinstance(c, dict)]
+        scrut, sty, sp = self.expr(parts[0], env)
+        ctors = self.job.get("enum_ctors", {}).get(sty)
+        if ctors is None: raise Unsupported("%s: switch on non-enum type %s" % (self.name, sty))
+        body = parts[1]
+        if body.get("kind") != "CompoundStmt": raise Unsupported("%s: switch body" % self.name)
+        arms, cur = [], None          # (labels or None for default, [stmts])
+        def open_case(n):
+            labels = []
+            while n.get("kind") == "CaseStmt":
+                lab = n["inner"][0]
+                while lab.get("kind") in ("ConstantExpr", "ImplicitCastExpr"): lab = lab["inner"][0]
+                t, ty, _ = self.expr(lab, env)
+                labels.append(t)
+                n = n["inner"][1]
+            return labels, n
+        for st in body.get("inner", []):
+            if st.get("kind") == "CaseStmt":
+                labels, first = open_case(st)
+                cur = [labels, [first]]; arms.append(cur)
+            elif st.get("kind") == "DefaultStmt":
+                cur = [None, [st["inner"][0]]]; arms.append(cur)
+            else:
+                if cur is None: raise Unsupported("%s: statement before first case" % self.name)
+                cur[1].append(st)
+        covered = [l for a in arms if a[0] for l in a[0]]
+        exhaustive = set(covered) == set(ctors)
+        vals, pres = [], []
+        for labels, stmts in arms:
+            if labels is None and exhaustive: continue
+            is_assert_only = all(self.is_assert(x) is not None or x.get("kind") == "NullStmt" for x in stmts)
+            if not (self.always_returns({"kind": "CompoundStmt", "inner": stmts}) or is_assert_only):
+                raise Unsupported("%s: switch arm falls through" % self.name)
+            def unreachable_end(e):
+                # arm ended in COLA_ASSERT(false) without return: value irrelevant, pre is false already
+                if self.ret_type is None: return self.ret_tuple(None, e), "true"
+                return "default", "true"
+            v, p = self.block(stmts, env, unreachable_end, ind + 2)
+            pat = " | ".join(labels) if labels else "_"
+            vals.append("%s| %s => %s" % (pad, pat, v)); pres.append("%s| %s => %s" % (pad, pat, p))
+        if rest and not all(self.always_returns({"kind": "CompoundStmt", "inner": a[1]}) or True for a in arms):
+            raise Unsupported("%s: code after switch" % self.name)
+        val = "match %s with\n%s" % (scrut, "\n".join(vals))
+        pre = ("(%s) &&\n%s" % (sp, pad) if sp else "") + "(match %s with\n%s)" % (scrut, "\n".join(pres))
+        return val, pre
 
     def carried_tuple(self, env):
         cs = self._loopctx["carried"]
